@@ -162,7 +162,8 @@ def gen_gpx(rng, n, tier):
     out = []
     for _ in range(n):
         k = rng.randint(1, 5)
-        out.append({'srid': 'GEO', 'pts': [rand_xyz(rng, 'GEO') for _ in range(k)], 'T': [rand_time(rng) for _ in range(k)], 'ntracks': rng.choice([1, 1, 2]),
+        srid = rng.choice(['GEO', 'GEO', 'ENU'])        # a local track (with or without a recorded base) is exported as it is: E / N / U in the lon / lat / ele slots
+        out.append({'srid': srid, 'base': (srid == 'ENU' and rng.random() < 0.6), 'pts': [rand_xyz(rng, srid) for _ in range(k)], 'T': [rand_time(rng) for _ in range(k)], 'ntracks': rng.choice([1, 1, 2]),
                     'many': rng.random() < 0.3,           # one file per track (oneFile=False) into a directory
                     'af': rng.random() < 0.25})
     return out
@@ -175,6 +176,9 @@ def run_gpx(case):
     trs = [mk_track(case) for _ in range(case['ntracks'])]
     for i, t in enumerate(trs):
         t.tid = 'k%d' % i
+        if case.get('base'):
+            from tracklib.core import GeoCoords
+            t.base = GeoCoords(2.35, 48.85, 35.0)   # as recorded by an earlier toENUCoords(base)
         if case.get('af'):                        # analytical features exported in the <extensions> block of each point, under names close to the GPX tags
             t.createAnalyticalFeature('elevation', [1000.5 + k for k in range(t.size())])
             t.createAnalyticalFeature('timer', [7.25] * t.size())
@@ -194,14 +198,14 @@ def run_gpx(case):
     # a CSV round trip in the same process, after the GPX export (the writers share the class-level time formats)
     cpath = os.path.join(scratch(), 'after.csv')
     TrackWriter.writeToFile(trs[0], cpath, 0, 1, 2, 3, ';', 0)
-    cback = TrackReader.readFromCsv(cpath, 0, 1, 2, 3, ';', h=0, srid='GEO')
+    cback = TrackReader.readFromCsv(cpath, 0, 1, 2, 3, ';', h=0, srid=case.get('srid', 'GEO'))
     os.remove(cpath)
     save = ObsTime.getReadFormat()
     ObsTime.setReadFormat("4Y-2M-2DT2h:2m:2sZ")
     back = []; backf = []
     try:
         for pth in paths:
-            b = TrackReader.readFromGpx(pth, srid='GEO')
+            b = TrackReader.readFromGpx(pth, srid=case.get('srid', 'GEO'))
             back += [[[o.position.getX(), o.position.getY(), o.position.getZ(), o.timestamp.toAbsTime()] for o in b.getTrack(i)] for i in range(b.size())]
             backf += [[[o.timestamp.day, o.timestamp.month, o.timestamp.year, o.timestamp.hour, o.timestamp.min, o.timestamp.sec] for o in b.getTrack(i)] for i in range(b.size())]
             os.remove(pth)
@@ -222,7 +226,7 @@ def coq_gpx(case, obs):
     pts = coq_list('(%s, %s, %s, %s)' % (q(y), q(x), q(z), st(f)) for (x, y, z), f in zip(case['pts'], obs['stamps']))
     ts = coq_list('("k%d", %s)' % (i, pts) for i in range(case['ntracks']))
     back = coq_list(coq_list('(%s, %s, %s, %s)' % (q(b[1]), q(b[0]), q(b[2]), st(f)) for b, f in zip(tb, tf)) for tb, tf in zip(obs['back'], obs['backf']))
-    return '(%s, %s, %s, %s)' % (coq_list(S(l) for l in hdr), ts, S(obs['text']), back)
+    return '(%s, %s, %s, %s, %s)' % (coq_list(S(l) for l in hdr), ts, S(obs['text']), back, 'true' if case.get('srid', 'GEO') == 'GEO' else 'false')
 
 
 def oracle_gpx(case, obs):
@@ -243,24 +247,41 @@ def oracle_gpx(case, obs):
     return None
 
 
+def finding_gpx(case, obs, why):
+    # open finding gpx-enu-height: read back as local (ENU) coordinates a GPX file loses its third coordinate (the reader stores it in the attribute of
+    # geographic positions); it explains a failure only when that is all that differs: same counts, same first two coordinates, same instants, heights read as 0
+    if case.get('srid') != 'ENU' or 'exc' in obs or obs.get('fmt1') != obs.get('fmt0') or obs.get('csv_after') != list(case['T']):
+        return None
+    if len(obs['back']) != case['ntracks']:
+        return None
+    for tr in obs['back']:
+        if len(tr) != len(case['pts']):
+            return None
+        for (x, y, z), T, b in zip(case['pts'], case['T'], tr):
+            if abs(b[0] - x) > 1e-8 or abs(b[1] - y) > 1e-8 or b[3] != T or b[2] != 0:
+                return None
+    return 'gpx-enu-height'
+
+
 S_GPX = Stream(
     name='gpx', budget={'quick': 150, 'thorough': 4000},
     rule='geographic tracks (1..5 observations, 1..2 tracks) written by writeToGpx into one file or one file per track (30 %) and read by readFromGpx with the matching read format, followed by a CSV round trip in the same process; for the one-file form the file text is compared byte for byte with the model\'s writer (header lines taken from the file, '
          'coordinates printed by the model\'s "{:3.8f}", times by its GPX time format) and the points read back (values and time fields) with the model of the line-based reader on that text; '
          'oracle: 1e-8 degree, 1 mm, same second; class-level time formats restored',
     imports='From Coq Require Import List Ascii String Bool QArith Qabs.\nImport ListNotations.\nFrom TL Require Import Model.TextFmt Model.CsvText Model.GpxText Proofs.FixedText Proofs.TimeText Proofs.GpxText.\nOpen Scope Q_scope.\nOpen Scope string_scope.',
-    case_type='list string * list (string * list (Q * Q * Q * stamp)) * string * list (list (Q * Q * Q * stamp))',
+    case_type='list string * list (string * list (Q * Q * Q * stamp)) * string * list (list (Q * Q * Q * stamp)) * bool',
     check_def='''Definition hdr_okb (l : string) : bool := negb (has "<trk>" l) && negb (has "</trk>" l) && str_all (fun c => negb (Ascii.eqb c nl)) l.
 Definition mkt (t : string * list (Q * Q * Q * stamp)) : trk := {| tname := fst t; tpts := map (fun '(la, lo, el, s) => gpx_point la lo el s) (snd t) |}.
-Definition near (tok : string) (v : Q) : bool := match parse_fixed tok with Some w => Qle_bool (Qabs (w - v)) (1 # 1000000000000) | None => false end.
+Definition near (tok : string) (v : Q) : bool := match parse_fixed tok with Some w => Qle_bool (Qabs (w - v)) ((1 # 1000000000000) * (1 + Qabs v)) | None => false end.   (* the float nearest to the printed decimal *)
 Definition stamp_eqb (a b : stamp) : bool := Nat.eqb (day a) (day b) && Nat.eqb (month a) (month b) && Nat.eqb (year a) (year b) && Nat.eqb (hour a) (hour b) && Nat.eqb (minute a) (minute b) && Nat.eqb (TimeText.sec a) (TimeText.sec b).
-Definition pt_match (p : pt) (o : Q * Q * Q * stamp) : bool := let '(la, lo, el, s) := o in near (lat p) la && near (lon p) lo && near (ele p) el && stamp_eqb (read_gpx_time (list_ascii_of_string (tim p))) s.
+(* geo = false: the file is read back as local coordinates, where the code under test does not keep the height (open finding gpx-enu-height): the height is then not compared *)
+Definition pt_match (geo : bool) (p : pt) (o : Q * Q * Q * stamp) : bool := let '(la, lo, el, s) := o in near (lat p) la && near (lon p) lo && (negb geo || near (ele p) el) && stamp_eqb (read_gpx_time (list_ascii_of_string (tim p))) s.
 Fixpoint all2 {A B} (f : A -> B -> bool) (a : list A) (b : list B) : bool := match a, b with [], [] => true | x :: r, y :: s => f x y && all2 f r s | _, _ => false end.
-Definition ok (c : list string * list (string * list (Q * Q * Q * stamp)) * string * list (list (Q * Q * Q * stamp))) : bool :=
-  let '(hdr, ts, text, back) := c in
+Definition ok (c : list string * list (string * list (Q * Q * Q * stamp)) * string * list (list (Q * Q * Q * stamp)) * bool) : bool :=
+  let '(hdr, ts, text, back, geo) := c in
   forallb hdr_okb hdr && String.eqb (write_gpx hdr (map mkt ts)) text &&
-  match read_gpx text with Some r => all2 (all2 pt_match) r back | None => false end.''',
-    generate=gen_gpx, run_impl=run_gpx, coq_case=coq_gpx, oracle=oracle_gpx,
+  match read_gpx text with Some r => all2 (all2 (pt_match geo)) r back | None => false end.''',
+    generate=gen_gpx, run_impl=run_gpx, coq_case=coq_gpx, oracle=oracle_gpx, finding_key=finding_gpx,
     nontrivial=lambda c, o: len(c['pts']) >= 2, klass=lambda c, o: 'tracks=%d' % c['ntracks'])
 
 
